@@ -47,6 +47,8 @@ const (
 	// (reconnect loop, after the handshake deadline) won the race against the request that was waiting for the
 	// handshake to end; the model then takes the schedule with the close first (its CoClosed outcome)
 	rsNoAckClosed
+	// the CONNECT write itself fails (the transport died between dial and CONNECT): CoClosed in the model
+	rsConnWriteFail
 )
 
 type rsAttempt struct {
@@ -93,6 +95,16 @@ type rsScenario struct {
 	// the request comes back without a retry handle and the RetryClient drops it).  Outside the model's fault
 	// alphabet: such scenarios are judged by the property predicate only (rsPredOnly), never compared with the model.
 	EOFWrites bool
+	// CleanSession: the client connects with WithCleanSession(true); a conforming broker then never reports a
+	// kept session (every accept has SP = false and wipes the broker's state)
+	CleanSession bool
+	// StallWriter: when a silent fault fires the broker also stops READING: it sends one inbound QoS 1 message
+	// and the client's PUBACK for it blocks inside Transport.Write until the client closes the transport.
+	// Nothing the model describes changes (inbound traffic and its acknowledgements are not part of it).
+	StallWriter bool
+	// NoOnError: no OnError callback is installed (the zero value): the error classes cannot be observed, so these
+	// scenarios are judged by a predicate without the "reported" clause and are not compared with the model
+	NoOnError bool
 	Phases    []rsPhase
 	Faults    []rsFault
 	Note      string
@@ -209,11 +221,12 @@ type rsBroker struct {
 	connectGo      chan int // outcome kind for the CONNECT being written
 	connectSP      bool
 	quit           chan struct{}
+	stall          map[int]bool // connections on which the broker stopped reading (StallWriter)
 }
 
 func newRsBroker(sc *rsScenario) *rsBroker {
 	return &rsBroker{sc: sc, subs: map[string]byte{}, q2A: map[int]bool{}, q2B: map[int]bool{},
-		idOf: map[int]int{}, uidOf: map[int]int{},
+		idOf: map[int]int{}, uidOf: map[int]int{}, stall: map[int]bool{},
 		connectReached: make(chan int, 1), connectGo: make(chan int, 1), quit: make(chan struct{})}
 }
 
@@ -288,6 +301,9 @@ func (b *rsBroker) onWrite(c *memConn, pkt []byte) error {
 		case rsClosed:
 			c.cut()
 		case rsNoAck:
+		case rsConnWriteFail:
+			c.cut()
+			return errCut
 		}
 		return nil
 	}
@@ -296,6 +312,23 @@ func (b *rsBroker) onWrite(c *memConn, pkt []byte) error {
 		return nil
 	}
 	if typ == 0xE0 {
+		return nil
+	}
+	if typ == 0x40 {
+		// the client's PUBACK for the inbound message of a StallWriter scenario: the broker has stopped reading
+		b.mu.Lock()
+		st := b.stall[k]
+		b.mu.Unlock()
+		for st && !c.isClosed() {
+			select {
+			case <-b.quit:
+				return errClosedConn
+			case <-time.After(100 * time.Microsecond):
+			}
+		}
+		if st {
+			return errClosedConn
+		}
 		return nil
 	}
 	b.mu.Lock()
@@ -421,6 +454,10 @@ func (b *rsBroker) onWrite(c *memConn, pkt []byte) error {
 			c.cut()
 		}
 		return nil
+	}
+	if (f == fSilentReq || f == fSilentAck) && b.sc.StallWriter && !b.stall[k] {
+		b.stall[k] = true
+		c.send([]byte{0x32, 7, 0, 2, 'i', 'n', 0, 7, 'x'}) // inbound QoS 1 PUBLISH: its PUBACK will not be read
 	}
 	if f == fSilentReq {
 		return nil
@@ -560,7 +597,7 @@ func rsRun(sc *rsScenario) rsObs {
 	if sc.Timeout && !late {
 		rc.ResponseTimeout = 150 * time.Millisecond
 	}
-	rc.OnError = func(err error) {
+	onError := func(err error) {
 		var rte *mqtt.RequestTimeoutError
 		cls := "EConn"
 		switch {
@@ -578,9 +615,12 @@ func rsRun(sc *rsScenario) rsObs {
 		errMu.Unlock()
 		_ = rc.Stats() // a callback may look at the statistics
 	}
+	if !sc.NoOnError {
+		rc.OnError = onError
+	}
 	opts := []mqtt.ReconnectOption{mqtt.WithReconnectWait(200*time.Microsecond, time.Millisecond),
 		mqtt.WithRetryClient(rc), mqtt.WithAlwaysResubscribe(sc.Always)}
-	connOpts := []mqtt.ConnectOption{mqtt.WithCleanSession(false)}
+	connOpts := []mqtt.ConnectOption{mqtt.WithCleanSession(sc.CleanSession)}
 	if sc.usesNoAck() {
 		switch sc.HsTimeoutVia {
 		case 1:
@@ -854,7 +894,7 @@ func (sc *rsScenario) coq() string {
 				kind = "AConn CoClosed"
 			case rsNoAck:
 				kind = "AConn CoNoAck"
-			case rsNoAckClosed:
+			case rsNoAckClosed, rsConnWriteFail:
 				kind = "AConn CoClosed"
 			}
 			ats = append(ats, fmt.Sprintf("{| at_kind := %s; at_mid := %s |}", kind, rsCoqOps(a.Mid)))
@@ -899,7 +939,7 @@ func (sc *rsScenario) describe() map[string]interface{} {
 	for _, p := range sc.Phases {
 		var ats []string
 		for _, a := range p.Attempts {
-			k := []string{"dial-fails", "accept", "refused", "closed-before-connack", "no-connack", "no-connack (own close ahead of the queued request)"}[a.Kind]
+			k := []string{"dial-fails", "accept", "refused", "closed-before-connack", "no-connack", "no-connack (own close ahead of the queued request)", "connect-write-fails"}[a.Kind]
 			if a.Kind == rsAccept {
 				k += fmt.Sprintf("(sessionPresent=%v)", a.SP)
 			}
@@ -917,8 +957,8 @@ func (sc *rsScenario) describe() map[string]interface{} {
 	return map[string]interface{}{"methodB": sc.MethodB, "alwaysResubscribe": sc.Always, "responseTimeout": sc.Timeout,
 		"connectContextCancelledAfterConnect": sc.CancelCtx, "callerStructHasDupSet": sc.CallerDup,
 		"callerIDs": sc.CallerIDs, "brokerGrantsAtMostQoS": sc.CapQoS - 1,
-		"connackDeadlineVia":                  []string{"WithTimeout", "WithPingInterval only", "CONNECT keep-alive only"}[sc.HsTimeoutVia%3],
-		"responseTimeoutAssignedLate":         sc.LateTimeout, "failingWriteReturnsEOF": sc.EOFWrites, "phases": phs, "faults": fs, "note": sc.Note}
+		"connackDeadlineVia":          []string{"WithTimeout", "WithPingInterval only", "CONNECT keep-alive only"}[sc.HsTimeoutVia%3],
+		"responseTimeoutAssignedLate": sc.LateTimeout, "failingWriteReturnsEOF": sc.EOFWrites, "cleanSession": sc.CleanSession, "brokerStopsReadingOnSilentFault": sc.StallWriter, "noOnErrorCallback": sc.NoOnError, "phases": phs, "faults": fs, "note": sc.Note}
 }
 
 func rsDescOps(ops []rsOp) string {
@@ -1045,7 +1085,7 @@ func (g *rsGen) scenario(w [5]int, silent, keepSession bool) *rsScenario {
 		var ph rsPhase
 		last := pi == nPh-1
 		for r.Intn(4) == 0 && len(ph.Attempts) < 2 {
-			kinds := []int{rsDialFail, rsRefused, rsClosed}
+			kinds := []int{rsDialFail, rsRefused, rsClosed, rsConnWriteFail}
 			at := rsAttempt{Kind: kinds[r.Intn(len(kinds))]}
 			if r.Intn(8) == 0 {
 				at.Kind = rsNoAck // the broker reads CONNECT and stays silent: costs one handshake timeout
@@ -1087,6 +1127,14 @@ func (g *rsGen) scenario(w [5]int, silent, keepSession bool) *rsScenario {
 		pendingBound = bound // everything may still be pending on the next connection
 		sc.Phases = append(sc.Phases, ph)
 		conn++
+	}
+	if !keepSession && r.Intn(5) == 0 {
+		sc.CleanSession = true
+		for pi := range sc.Phases {
+			for ai := range sc.Phases[pi].Attempts {
+				sc.Phases[pi].Attempts[ai].SP = false
+			}
+		}
 	}
 	return sc
 }
@@ -1218,6 +1266,20 @@ func rsCorpus() []*rsScenario {
 			Ops: []rsOp{rsP(4, 1), rsP(5, 0), rsU(6, "a"), rsP(7, 2)}, IdleCut: true},
 		{Attempts: []rsAttempt{{Kind: rsClosed}, {Kind: rsDialFail, Mid: []rsOp{rsP(8, 1)}}, acc(true)}}},
 		Faults: []rsFault{{1, 3, fLostAfter}}})
+	// clean session: a QoS 2 exchange interrupted after PUBREL was written is continued with PUBREL (never PUBLISH
+	// again) also when the next connection starts a clean session
+	for i, f := range []rsFault{{0, 1, fAckLost}, {0, 1, fLostAfter}, {0, 1, fWriteFail}, {0, 0, fAckLost}} {
+		out = append(out, &rsScenario{Note: "QoS 2 interrupted, next connection with CleanSession", CleanSession: true, MethodB: i%2 == 1, Phases: []rsPhase{
+			{Attempts: []rsAttempt{acc(false)}, Ops: []rsOp{rsP(1, 2), rsP(2, 1)}, IdleCut: true},
+			{Attempts: []rsAttempt{acc(false)}}},
+			Faults: []rsFault{f}})
+	}
+	// the transport dies between dial and CONNECT (the CONNECT write fails), on the first connection and on a
+	// reconnection, with requests pending
+	out = append(out, &rsScenario{Note: "CONNECT write fails on the first connection and on a reconnection", Phases: []rsPhase{
+		{Attempts: []rsAttempt{{Kind: rsConnWriteFail, Mid: []rsOp{rsP(1, 1)}}, acc(false)}, Ops: []rsOp{rsP(2, 2), rsS(3, rsSub{"a", 1})}, IdleCut: true},
+		{Attempts: []rsAttempt{{Kind: rsConnWriteFail}, {Kind: rsDialFail, Mid: []rsOp{rsP(4, 1)}}, {Kind: rsConnWriteFail}, acc(true)}, Ops: []rsOp{rsU(5, "a")}}},
+		Faults: []rsFault{{1, 1, fAckLost}}})
 	// CONNACK never sent: the broker reads CONNECT and stays silent, with requests pending; the deadline of the
 	// CONNACK wait comes from WithTimeout, from WithPingInterval alone, or from the CONNECT keep-alive alone
 	for via := 0; via < 3; via++ {
@@ -1345,6 +1407,9 @@ type rsFamily struct {
 // rsPredOnly: families (by name) whose scenarios leave the model's fault alphabet; only V_<name> is computed.
 var rsPredOnly = map[string]bool{}
 
+// rsFamPred: families (by name) judged by another predicate than the property's main one.
+var rsFamPred = map[string]string{}
+
 // rsRunProperty runs the families for one property and writes cases_<pid>.v / meta.
 func rsRunProperty(cfg *runCfg, pid string, pred string, fams []rsFamily, rule string, nontrivial func(*rsScenario, *rsObs) bool) error {
 	cf := newCasesFile(pid, "RetryCore", "RetrySys", "CheckRetry")
@@ -1377,7 +1442,7 @@ func rsRunProperty(cfg *runCfg, pid string, pred string, fams []rsFamily, rule s
 			for _, p := range c.sc.Phases {
 				dist["connections"]++
 				for _, a := range p.Attempts {
-					dist["attempt_"+[]string{"dialfail", "accept", "refused", "closed", "noack", "noack"}[a.Kind]]++
+					dist["attempt_"+[]string{"dialfail", "accept", "refused", "closed", "noack", "noack", "connect_write_fails"}[a.Kind]]++
 					dist["requests_while_connecting"] += len(a.Mid)
 				}
 				for _, o := range p.Ops {
@@ -1399,7 +1464,11 @@ func rsRunProperty(cfg *runCfg, pid string, pred string, fams []rsFamily, rule s
 		}
 		total += len(cases)
 		cf.def("cases_"+fam.name, "list (scenario * obs)", cList(items))
-		cf.result("V_"+fam.name, fmt.Sprintf("failing %s cases_%s", pred, fam.name))
+		fp := pred
+		if p2, ok := rsFamPred[fam.name]; ok {
+			fp = p2
+		}
+		cf.result("V_"+fam.name, fmt.Sprintf("failing %s cases_%s", fp, fam.name))
 		if !rsPredOnly[fam.name] {
 			cf.result("M_"+fam.name, fmt.Sprintf("failing model_ok cases_%s", fam.name))
 		}
